@@ -12,7 +12,7 @@ use proptest::prelude::*;
 fn c10_params(tier: Tier) -> (usize, usize, u32) {
     // (number of derived-pool targets, max target, random histories)
     match tier {
-        Tier::Quick => (10, 1 << 13, 2400),
+        Tier::Quick => (6, 1 << 13, 1800),
         Tier::Thorough => (90, 1 << 16, 16000),
     }
 }
@@ -24,10 +24,10 @@ pub fn c10_meta(tier: Tier) -> Meta {
              Bounded-exhaustive: for each of {targets}+ target lengths up to {tmax} (highly composite 11-smooth lengths, p*2^k with Rader/Bluestein primes, a few fixed ones) a pool of <= 8 RELATED requests is derived from the target's own fresh plan via the plan-report hook (every stage of its AVX radix chain / every sub-recipe of its scalar or SSE recipe, Rader/Bluestein inner lengths, multiples of the target, and two opposite-direction requests), and ALL sequences of length <= 3 over the pool are run on the Scalar, Sse and Avx planners, f32 and f64. \
              Pairs: every (M, p) with p prime <= 400 (quick) / 2048 (thorough) and M = 2^a*3^b in [p,12p]: the history [M, p, p'] (a cached M is a candidate Bluestein inner length when M >= 2p-1, and must NOT be taken for one when it is shorter). \
              Neighbour histories: [p-1, p], [(p-1)/2, p-1, p], [p, 2p, 2p+1], [p-1, p, 2p] for every prime p in 37..=600 (quick) / 4000 (thorough). \
-             Plan lifetime: histories in which the caller DROPS every returned transform before the next request (repeats, both directions, halves/doubles/quadruples of landmark sizes from 1000 up to 2^21 (quick) / 2^23 (thorough), and a third as many random histories), each transform judged against the analytic DFT column of a unit impulse (and a dense vector up to 2^16). \
+             Plan lifetime: histories in which the caller DROPS every returned transform before the next request (repeats, both directions, halves/doubles/quadruples of landmark sizes from 1000 up to 5*2^18 and 2^20 (quick) / 2^23 (thorough), and a third as many random histories), each transform judged against the analytic DFT column of a unit impulse (and a dense vector up to 2^16). \
              Window-fill: proptest-drawn histories of 2-5 requests with lengths inside [p, 4p] (candidate inner lengths and lengths just too short to be one) followed by a Bluestein prime p and a multiple of it. \
              Random: {cases} proptest-drawn histories of length 1..12 over the divisor lattices of 5040*{{1,11,13,59,251}} and 2^a*3^b lengths (Bluestein inner sizes), all four planners. \
-             Oracle for EVERY transform returned in a history: len()/fft_direction(); C02 bound on a dense vector and C01 tolerance on an impulse against the reference DFT, through a rotating entry point with exactly the advertised scratch (the last request of a history, and every request of a history of <= 3, through ALL four entry points); C06 round trip whenever both directions of a length were returned; all of it after the planner has been dropped; and a twin planner fed the same history must return transforms with bit-identical outputs. \
+             Oracle for EVERY transform returned in a history: len()/fft_direction(); C02 bound on a dense vector and C01 tolerance on an impulse against the reference DFT, through a rotating entry point with exactly the advertised scratch (the last request of a history through ALL four entry points); C06 round trip whenever both directions of a length were returned; all of it after the planner has been dropped; and a twin planner fed the same history must return transforms with bit-identical outputs. \
              Non-trivial: the history contains a request that the planner splices onto something an earlier request built (AVX: plan shows CacheBase(b), b < n; scalar/SSE: a sub-recipe length built earlier in that direction), as reported by the plan-report hook just before the request.",
         ),
         exhaustive: true,
@@ -212,9 +212,9 @@ pub fn c10_worker(ctx: &mut Ctx) {
     // caller drops every transform before the next request ("planlife"): repeats and radix-chain neighbours of landmark sizes
     // up to 2^21 (quick) / 2^23 (thorough), where a cache that only borrows what callers keep alive would lose its entries
     {
-        let mut marks: Vec<usize> = vec![1000, 4096, 7 * 512, 59 * 16, 65536, 3 * 32768, 5 << 14, 131072, 100003, 5 << 18, 1 << 20, (1 << 20) + 7, 3 << 19, 1 << 21];
+        let mut marks: Vec<usize> = vec![1000, 4096, 7 * 512, 59 * 16, 65536, 3 * 32768, 5 << 14, 131072, 100003, 5 << 18, 1 << 20];
         if ctx.tier == Tier::Thorough {
-            marks.extend([5usize << 19, 1 << 22, 3 << 21, 1 << 23, 7 << 18, 1048583 * 2]);
+            marks.extend([(1usize << 20) + 7, 3 << 19, 1 << 21, 5 << 19, 1 << 22, 3 << 21, 1 << 23, 7 << 18, 1048583 * 2]);
         }
         for (mi, &l) in marks.iter().enumerate() {
             for planner in [Planner::Scalar, Planner::Sse, Planner::Avx] {
@@ -222,7 +222,7 @@ pub fn c10_worker(ctx: &mut Ctx) {
                     continue;
                 }
                 // scalar/SSE planning of multi-million lengths is slow; keep them to the smaller marks
-                if planner != Planner::Avx && l > 1 << 21 {
+                if planner != Planner::Avx && l > ctx.tier.pick(1usize << 18, 1 << 21) {
                     continue;
                 }
                 let ty = if l > 1 << 21 { Ty::F32 } else { TYS[(mi + planner as usize) % 2] };
